@@ -100,6 +100,12 @@ type Rec struct {
 func (r *Rec) Label(format string, a ...any) {
 	r.labels = append(r.labels, fmt.Sprintf(format, a...))
 }
+
+// Labels returns the labels recorded so far (for checks that wrap another check's evaluation).
+func (r *Rec) Labels() []string { return append([]string{}, r.labels...) }
+
+// WasUnasserted reports whether the evaluation marked the case as not asserted.
+func (r *Rec) WasUnasserted() bool    { return r.unasserted }
 func (r *Rec) Nontrivial()            { r.nontrivial = true }
 func (r *Rec) Unasserted()            { r.unasserted = true }
 func (r *Rec) ExcludedKnown(f string) { r.excluded = f }
